@@ -13,6 +13,22 @@ CLAIMED = {
   note="Trusts: the decode of the complete file through a plain reader as the reference; reference SPZ/PTS encoders in the harness; a decoder panic counts as rejection; hang = 2 s process CPU or read-count budget.",
   technique="deterministic simulation: enumerated crash points on a simulated disk + seeded stream delivery faults",
  ),
+ "C13": dict(
+  engine="detsched (seeded scheduler over real goroutines) + race detector + porcupine",
+  category="exploration",
+  text="2-4 client tasks issue UpdateParameter / ParameterData / Artifact calls on a real graph.Instance over generated multi-level graphs; a seeded scheduler (six policies incl. PCT, starvation, stalls inside evaluation while the lock is held) decides every interleaving at the hooks around the producer lock and inside node processors; the build is -race with scheduler hand-offs invisible to ThreadSanitizer; recorded histories are checked for linearizability with porcupine against a sequential model; deadlock, bounded progress after the fault phase, panics and runtime crashes are violations. Sampled, not exhaustive.",
+  design_ref="DESIGN.md 3.1",
+  note="Trusts: ThreadSanitizer's happens-before analysis over executed schedules; yield-point granularity; harness node types stand in for user nodes; porcupine Unknown is counted, never reported.",
+  technique="deterministic simulation: seeded goroutine scheduler + race detector + linearizability check of the recorded history",
+ ),
+ "C11": dict(
+  engine="choice-stream history simulation vs. from-scratch evaluator; seeded map-order seam",
+  category="exploration",
+  text="Generated update / re-wire / array-edit / read histories over generated DAGs of real nodes.Struct nodes; after every operation the value read is compared with a from-scratch evaluation, executions with a dirty-set model (no execution without a change upstream, at most once per read) and versions with execution counts; the order in which a node enumerates its dependencies (Go map order) is a seeded, replayable choice. Sampled histories.",
+  design_ref="DESIGN.md 3.3",
+  note="Trusts: harness processors are injective in their inputs; the permissive reading of 'changed' (equal-value updates and upstream re-wiring count as changes).",
+  technique="deterministic simulation: seeded operation histories with a nondeterminism seam (map order) against an executable reference model",
+ ),
 }
 
 PENDING = {
